@@ -400,6 +400,8 @@ type reader struct {
 	playedW atomic.Int64 // number of writes begun when its last PLAY completed
 	staying atomic.Bool  // in its last play window, waiting for the writer to finish
 	tailOK  atomic.Bool  // the last packet its queue accepted has arrived (or the long wait for it expired)
+	closing atomic.Bool  // the harness has begun to close this client
+	selfErr atomic.Value // string: the error with which the client ended ON ITS OWN (Wait returned before the harness closed it)
 }
 
 func protoPtr(p gortsplib.Protocol) *gortsplib.Protocol { return &p }
@@ -453,6 +455,12 @@ func (sc *scenario) newReader1(h *hop, k int, port int, transport string, rng *h
 		return nil, err
 	}
 	rd.c = c
+	go func() {
+		err := c.Wait()
+		if !rd.closing.Load() && err != nil {
+			rd.selfErr.Store(err.Error())
+		}
+	}()
 	u, err := base.ParseURL(scheme + "://127.0.0.1:" + strconv.Itoa(port) + "/stream?r=" + strconv.Itoa(k))
 	if err != nil {
 		c.Close()
@@ -620,6 +628,7 @@ func (sc *scenario) runPlay() *runResult {
 						mark = 1 // closed after the writer had finished and deliveries had ceased
 					}
 					hp.log(event{kind: evCloseB, r: k, w: mark})
+					rd.closing.Store(true)
 					rd.c.Close()
 					rd.closed.Store(true)
 					hp.log(event{kind: evCloseE, r: k})
@@ -722,6 +731,9 @@ func (sc *scenario) runPlay() *runResult {
 				time.Sleep(10 * time.Millisecond)
 			}
 			if e := h.endedWith(k); e != "" {
+				if ce, _ := rd.selfErr.Load().(string); ce != "" {
+					e += " / the reader's client had ended on its own: " + ce
+				}
 				hp.mu.Lock()
 				if hp.ended == nil {
 					hp.ended = map[int]string{}
@@ -1116,7 +1128,9 @@ func (hp *hop) oracle(sc *scenario) []failure {
 			}
 			if e := hp.ended[r]; missingSeen >= 0 && e != "" {
 				// the tail is missing because the server terminated the session and said so
-				if !strings.Contains(e, "timeout") && !strings.Contains(e, "timed out") {
+				// signalled endings: the server's own timeouts, and a reader whose CLIENT gave up on its own (its Wait()
+				// returned an error and it sent TEARDOWN): the application of that reader was told
+				if !strings.Contains(e, "timeout") && !strings.Contains(e, "timed out") && !strings.Contains(e, "the reader's client had ended on its own") {
 					add("tcp-reader-session-ended", "reader %d (TCP): the server ended the session of a reader that was playing (%s); write %d onwards not delivered", r, e, missingSeen)
 				}
 			} else if missingSeen >= 0 && (win.stopB < 0 || win.drained) {
